@@ -51,7 +51,7 @@ def parts(tier):
 def plan(tier, seed):
     Ls, Rs, Os = parts(tier)
     cases = [{'L': L, 'sizes': s} for L in Ls for s in ('222', '234') if tier == 'thorough' or s == '222' or '...' not in L]
-    tree = [{'tree': sub} for sub in ('ij,j->i', 'ij...,j...->i...', '...ij,...j->...i', 'ikj,kj->ki', 'hij...,hj...->hi...'.replace('h', 'k'), 'ji,j->i', 'kij,kj->ki')]
+    tree = [{'tree': sub, 'extra': e} for e in ([2], [2, 3], [2, 1, 2]) for sub in ('ij,j->i', 'ij...,j...->i...', '...ij,...j->...i', 'ikj,kj->ki', 'hij...,hj...->hi...'.replace('h', 'k'), 'ji,j->i', 'kij,kj->ki')]
     return [
         {'name': 'strings', 'target': TARGET, 'x64': False, 'cases': cases, 'chunk': 1, 'ctx': {'nR': len(Rs), 'nO': len(Os)}},
         {'name': 'trees', 'target': TARGET, 'x64': False, 'cases': tree, 'chunk': 1},
@@ -102,7 +102,9 @@ def run(phase, cases, ctx):
             L, rest = sub.split(',')
             R, O = rest.split('->')
             sizes = {'i': 2, 'j': 3, 'k': 2}
-            bs, xs = shape_of(L, sizes, (2,)), shape_of(R, sizes, (2,))
+            extra = tuple(case.get('extra', [2]))
+            # the block carries only its named axes (its ellipsis stands for no axis); the leaves carry `extra` batch axes
+            bs, xs = shape_of(L, sizes, ()), shape_of(R, sizes, extra)
             B1 = (np.arange(int(np.prod(bs))) * 1.0 + 1).reshape(bs).astype(np.float32)
             B2 = (np.arange(int(np.prod(bs))) * -2.0 + 7).reshape(bs).astype(np.float32)
             x1 = (np.arange(int(np.prod(xs))) * 2.0 + 3).reshape(xs).astype(np.float32)
